@@ -5,7 +5,7 @@ import itertools
 
 from ..program import AnalysisError, walk_local, dotted
 from ..analysis import Spec, src, class_const, const_value
-from ..rules import (GWF, EXC, need_func, stores_to, is_const, eval_atom, eval_cond,
+from ..rules import (substitute_locals, canon, GWF, EXC, need_func, stores_to, is_const, eval_atom, eval_cond,
                      UNKNOWN, parent_map, raise_class)
 from . import common
 from .c07 import _explore
@@ -33,8 +33,11 @@ def run(prog, an, rep):
                              unwanted_workflows, lru_rules])
 
 
-def _cache_key(expr):
-    """If expr is <...>BUILD_STATUS_CACHE[<key>] return src(key)."""
+def _cache_key(expr, f=None):
+    """If expr is <...>BUILD_STATUS_CACHE[<key>] (possibly through a local
+    that names that entry) return src(key)."""
+    if f is not None and isinstance(expr, ast.Name):
+        expr = substitute_locals(f, expr, paths_only=True)
     if isinstance(expr, ast.Subscript) and \
             (dotted(expr.value) or '').endswith('BUILD_STATUS_CACHE'):
         return src(expr.slice)
@@ -49,7 +52,7 @@ def cache_calls(prog, method):
         for call in prog.calls_in(f):
             if isinstance(call.func, ast.Attribute) and \
                     call.func.attr == method:
-                k = _cache_key(call.func.value)
+                k = _cache_key(call.func.value, f)
                 if k is not None:
                     out.append((f, call, k))
     return out
@@ -65,7 +68,7 @@ def _guard_nodes(an, f, c, key, rev, before):
                 isinstance(st.value, ast.Call) and \
                 isinstance(st.value.func, ast.Attribute) and \
                 st.value.func.attr == 'get' and \
-                _cache_key(st.value.func.value) == key and \
+                _cache_key(st.value.func.value, f) == key and \
                 st.value.args and src(st.value.args[0]) == rev:
             vars_.append((st.targets[0].id, st))
     gates = []
@@ -146,7 +149,7 @@ def guarded_cache_writes(prog, an, rep):
                                   'LRUCache.set: %s' % src(n)[:60])
             if isinstance(n, ast.Call) and \
                     isinstance(n.func, ast.Attribute) and \
-                    'BUILD_STATUS_CACHE' in src(n.func.value) and \
+                    'BUILD_STATUS_CACHE' in canon(f, n.func.value, paths_only=True) and \
                     n.func.attr in ('clear', 'pop', 'popitem', 'update',
                                     '__setitem__', 'setdefault'):
                 ok = f.qname == BB + '.Repository.' \
@@ -487,12 +490,27 @@ def lru_rules(prog, an, rep):
     R = 'C17.REG.lru'
     k = prog.cls(LRU)
     get, set_ = k.methods['get'], k.methods['set']
-    g_src = src(get.node)
+    gc = an.cfg(get)
+    key = get.params[1]
+    hits = [n for n in gc.nodes.values() if n.kind == 'return' and
+            n.ast.value is not None and
+            canon(get, n.ast.value) == 'self._dict[%s]' % key]
+    moved = []
+    for n in gc.nodes.values():
+        if n.kind == 'stmt' and any(
+                isinstance(x, ast.Call) and
+                src(x.func) == 'self._dict.move_to_end' and
+                [src(a) for a in x.args] == [key] and not x.keywords
+                for x in ast.walk(n.ast)):
+            moved += gc.done_of(n)
     rep.evaluated()
-    rep.check('self._dict.move_to_end(key)' in g_src and
-              'return self._dict[key]' in g_src, R, get.qname +
-              ': a hit refreshes recency', get.where(), 'LRUCache.get no '
-              'longer moves the key to the recent end')
+    ok = bool(hits) and bool(moved)
+    for h in hits:
+        o, _ = gc.must_pass(moved, h.id)
+        ok = ok and o
+    rep.check(ok, R, get.qname + ': a hit refreshes recency', get.where(),
+              'LRUCache.get no longer moves the key to the recent end '
+              'before answering from the cache')
     pops = [x for f in (set_, k.methods.get('size'))
             if f is not None for x in prog.calls_in(f)
             if isinstance(x.func, ast.Attribute) and
